@@ -27,6 +27,10 @@ SPEC = {
              "and lets only its first round trip (index read) run, r:… lets the rest run and takes the answer - any events in "
              "between (exhaustive words over {q,r on both nodes, same-node / cross-node reconnect, close, sweep, heartbeat, expiry}, "
              "<= 4 / 5 steps, only words in which a lookup spans an event; random histories; boundary list); "
+             "wall-clock histories (w:<ms> = real sleep on every backend + FastForward on the redis-backed ones, lifetime 300 ms): a "
+             "session kept alive by heartbeats beyond one lifetime authenticates again on the same connection (before / after the "
+             "first lifetime, with refused and tunnel-type handshakes in between, after the client moved and came back) - the records' "
+             "ExpiresAt is stamped from the wall clock, FastForward alone cannot age it; "
              "ending-path words (client registered on node 0; alphabet same-node / cross-node reconnect, c e d s k x, old heartbeat; "
              "<= 3 / 4 steps, redis and memory); keep-alive words (heartbeats of both connections, reconnect, late close, ticks of 0.45 / 0.7 lifetimes, <= 3 / 5 steps). "
              "sched (holds-only exploration below the event granularity): the last two events (close||handshake, heartbeat||handshake, "
@@ -54,8 +58,9 @@ SPEC = {
         "event histories). Below that granularity the repaired UnregisterConnection / RefreshConnection are get-then-delete / "
         "get-then-set (the same pattern as DisconnectClientIfMatch): known finding index-check-then-act, forced by the sched "
         "cases, witness theorems index_check_then_act_witness / refresh_check_then_act_witness",
-        "clocks: one cluster clock (node clock skew << lifetime); GetConnectionState's ExpiresAt re-check is subsumed by the "
-        "store's own deadline and not modelled; observations exactly at a deadline are not generated (memory: visible at the "
+        "clocks: one cluster clock (node clock skew << lifetime) for storage deadlines and the records' ExpiresAt; the ExpiresAt "
+        "re-check of GetConnectionState is modelled (a record past it is absent for every reader; the delete of that record is "
+        "not modelled); t: ticks on the redis-backed stores are FastForward only and do not age ExpiresAt (w: ticks do); observations exactly at a deadline are not generated (memory: visible at the "
         "deadline, redis: gone)",
         "keep-alive means handshake/heartbeats of the registered connection at most one lifetime apart; a heartbeat later than "
         "that ends the obligation (RefreshConnection does not re-register a lapsed record)",
